@@ -366,6 +366,12 @@ func propC04(cx *sim.Ctx) {
 			cx.Fail("C04/valid/"+api, fmt.Sprintf("%v: %s", err, clip(string(text))), a2)
 			return false
 		}
+		// a JSON text is Unicode: whatever the input strings held, the writers replace invalid bytes, so
+		// the text itself must be valid UTF-8 (encoding/json would silently repair it when decoding)
+		if !utf8.Valid(text) {
+			cx.Fail("C04/valid-utf8/"+api, fmt.Sprintf("the text is not valid UTF-8: %q", clip(string(text))), attrs)
+			return false
+		}
 		if ok, why := denotes(c.Value, got, &c.Opt, "$"); !ok {
 			cx.Fail("C04/denotes/"+api, fmt.Sprintf("%s ; text: %s", why, clip(string(text))), attrs)
 			return false
